@@ -1193,7 +1193,7 @@ def disp10(ctx) -> List[Ob]:
             continue
         key = "arm " + A.alpha_key(arm.test)[:70]
         where = ctx.where(rb, arm.node)
-        calls = [c for c in A.walk_no_nested(ast.Module(arm.body, [])) if isinstance(c, ast.Call) and isinstance(c.func, ast.Attribute) and isinstance(c.func.value, ast.Name) and c.func.value.id == "self" and c.func.attr.startswith("render_")]
+        calls = [c for c in A.walk_no_nested(ast.Module(arm.body, [])) if isinstance(c, ast.Call) and isinstance(c.func, ast.Attribute) and isinstance(c.func.value, ast.Name) and c.func.value.id == "self" and c.func.attr.lstrip("_").startswith("render_")]
         if len(calls) != 1:
             out.append(bad("DISP-10", rb.qualname, key, where, f"the arm calls {len(calls)} render handlers: the block is not drawn (or drawn twice)"))
             continue
@@ -1205,7 +1205,7 @@ def disp10(ctx) -> List[Ob]:
     # (b) handlers
     for r in prog.subclasses(base, strict=True):
         for mname, h in sorted(r.methods.items()):
-            if not mname.startswith("render_") or mname in ("render_block", "render_edges", "render_byteflow", "render_scfg"):
+            if not mname.lstrip("_").startswith("render_") or mname.lstrip("_") in ("render_block", "render_edges", "render_byteflow", "render_scfg"):
                 continue
             cfg = ctx.cfg(h)
             hp = [p.arg for p in h.params if p.arg != "self"]
